@@ -68,18 +68,6 @@ package fasthttp
 //@   pure
 //@   requires[clean-key] crlffree(key, len(key))
 //@   requires[clean-value] crlffree(value, len(value))
-//@ func delAllArgs
-//@   trusted
-//@   pure
-//@ func delAllArgsStable
-//@   trusted
-//@   pure
 //@ func peekArgBytes
-//@   trusted
-//@   pure
-//@ func peekArgStr
-//@   trusted
-//@   pure
-//@ func hasArg
 //@   trusted
 //@   pure
